@@ -377,6 +377,15 @@ def main():
         "from the temperature calculation) only range and monotonicity are demanded",
         "random-number inputs restricted to the generator's lattice k*2^-48 in [1e-10, 1)",
     ]
+    # thread invariance: the spectra / cross sections / rate tables are shared const objects of all worker threads; every
+    # thread replays its own draw sequence alone and concurrently with 7 others on the same objects (bitwise equal, in range)
+    try:
+        exe_thr = common.build_harness("c18_threads", "hooks")
+        thr_stats, _ = hcheck.run_shards(chk, exe_thr, ["--draws", str(150000 if quick else 3000000), "--threads", "8"], 3 if quick else 16, timeout=900)
+        chk.coverage["thread_invariance"] = thr_stats
+        chk.require_nonzero(thread_values_compared=thr_stats.get("values_compared"))
+    except common.BuildError as e:
+        chk.inconclusive_because(str(e))
     chk.require_nonzero(
         xsec_below_threshold=xs_tot["below_threshold"], xsec_outer_fit=xs_tot["outer_fit_branch"], xsec_inner_fit=xs_tot["inner_fit_branch"],
         xsec_edges=xs_tot["edge_adjacent"], xsec_edge_strict_zero=xs_tot["edge_strict_zero"], xsec_edge_strict_nonzero=xs_tot["edge_strict_nonzero"], xsec_ambiguous=xs_tot["ambiguous_edge"], xsec_all_shell=xs_tot["all_shell_compared"], fixed=nfix,
